@@ -3,13 +3,17 @@ package c13
 import (
 	"bytes"
 	"context"
+	"crypto/hmac"
 	"crypto/sha256"
 	"fmt"
+	"reflect"
 	"sort"
 	"strings"
 	"sync"
 	"testing"
+	"testing/synctest"
 	"time"
+	"unsafe"
 
 	discovery "github.com/IBM/TSS/disc"
 	"github.com/IBM/TSS/mpc/bls"
@@ -20,6 +24,7 @@ import (
 	"verif/backend/blsb"
 	"verif/backend/psb"
 	"verif/backend/s"
+	"verif/dump"
 	"verif/explore"
 	"verif/harness"
 	"verif/scen"
@@ -708,6 +713,7 @@ func gen(c *harness.C) []harness.Case {
 	if c.Thorough() {
 		sizes = append(sizes, 18, 32, 40)
 	}
+	cases = append(cases, largeViewCase([]int{2, 127, 128, 129, 255, 256, 257, 300, 1000, 4096, 32768, 65535}))
 	for _, n := range sizes {
 		cases = append(cases, syncSetsCase(fmt.Sprintf("large%d", n), [][]uint16{big(n)}))
 	}
@@ -737,6 +743,114 @@ func gen(c *harness.C) []harness.Case {
 		}
 	}
 	return cases
+}
+
+// largeViewCase: a member of a large configured universe is told a view of v members by a peer
+// (one announcement through the public entry point, own tag, identifiers up to 65535): the view it
+// records for that peer is exactly that view. A full synchronisation of hundreds of members is too
+// expensive to run; what depends on the view size is the codec.
+func largeViewCase(sizes []int) harness.Case {
+	return harness.Case{ID: "sync/large-view", Run: func(c *harness.C) {
+		for _, v := range sizes {
+			v := v
+			c.Exec(fmt.Sprintf("[large-view] %d members", v))
+			var got, want string
+			rec := c.Bubble(func() {
+				universe := make([]uint16, 0, v)
+				for i := 0; i < v; i++ {
+					universe = append(universe, uint16(65535-i*(65535/max(v, 1))))
+				}
+				universe[0], universe[len(universe)-1] = 65535, 1
+				sort.Slice(universe, func(i, j int) bool { return universe[i] < universe[j] })
+				uniq := universe[:0]
+				for i, x := range universe {
+					if i == 0 || x != universe[i-1] {
+						uniq = append(uniq, x)
+					}
+				}
+				universe = uniq
+				topic := world.Sha([]byte("large-view"))
+				m := &discovery.Member{Membership: universe, Logger: world.NopLogger{}, ID: 1, Broadcast: func([]byte) {}, Send: func([]byte, uint16) {}}
+				ctx, cancel := context.WithTimeout(context.Background(), 3*time.Second)
+				go m.Synchronize(ctx, func([]uint16) {}, topic, len(universe), time.Second)
+				synctest.Wait()
+				peer := universe[len(universe)-1]
+				h := hmac.New(sha256.New, topic)
+				h.Write([]byte{byte(peer), byte(peer >> 8)})
+				msg := append([]byte{1}, h.Sum(nil)...)
+				for _, x := range universe {
+					msg = append(msg, byte(x), byte(x>>8))
+				}
+				m.HandleMessage(peer, msg)
+				synctest.Wait()
+				want = fmt.Sprint(universe)
+				// the recorded view of the peer, by reflection: topicsToMemberViews -> memberToView
+				got = recordedView(m, peer)
+				cancel()
+				time.Sleep(5 * time.Second)
+			})
+			if rec != nil && !harness.IsLeakPanic(rec) {
+				panic(rec)
+			}
+			c.Add("executions", 1)
+			c.Add("evaluations", 1)
+			if got == "?" {
+				c.Note("c13-large-view", "the recorded views are not reachable by reflection on this tree: case skipped")
+				return
+			}
+			if got != want {
+				g := got
+				if len(g) > 80 {
+					g = g[:80] + "..."
+				}
+				c.Violation("view-survives-the-codec", "c13-large-view-not-recorded", fmt.Sprintf("a peer announced a view of %d members (identifiers up to 65535); the member recorded %s", v, g), map[string]interface{}{"view": v})
+			}
+			c.Outcome(fmt.Sprintf("large-view|%d", v))
+		}
+	}}
+}
+
+func recordedView(m *discovery.Member, peer uint16) string {
+	f, ok := dump.Field(m, "topicsToMemberViews")
+	if !ok {
+		return "?"
+	}
+	res := "<none>"
+	found := false
+	visit := func(tpv interface{}) {
+		mv, ok := dump.Field(tpv, "memberToView")
+		if !ok {
+			return
+		}
+		var smp *sync.Map
+		switch {
+		case mv.Kind() == reflect.Ptr && !mv.IsNil() && mv.Type().Elem() == reflect.TypeOf(sync.Map{}):
+			smp = (*sync.Map)(unsafe.Pointer(mv.Pointer()))
+		case mv.CanAddr() && mv.Type() == reflect.TypeOf(sync.Map{}):
+			smp = (*sync.Map)(unsafe.Pointer(mv.UnsafeAddr()))
+		default:
+			return
+		}
+		found = true
+		if v, ok := smp.Load(peer); ok {
+			res = fmt.Sprint(v)
+		}
+	}
+	if f.CanAddr() && f.Type() == reflect.TypeOf(sync.Map{}) {
+		smp := (*sync.Map)(unsafe.Pointer(f.UnsafeAddr()))
+		smp.Range(func(_, v interface{}) bool { visit(v); return true })
+	} else if f.Kind() == reflect.Map {
+		it := f.MapRange()
+		for it.Next() {
+			if x, ok := dump.Iface(it.Value()); ok {
+				visit(x)
+			}
+		}
+	}
+	if !found {
+		return "?"
+	}
+	return res
 }
 
 func TestCheck(t *testing.T) { harness.Main(t, "C13", gen) }
